@@ -54,7 +54,7 @@ def single_ops(l, al):
     pcs = list(range(0, n + 2)) + [NPOS]
     a, b = al[0], al[1]
     ops = ["clear", f"pb {a}", "pop", f"ar {L([a, b])}", f"ar {L([])}", f"sw {L([b])}", f"sw {L([])}",
-           f"sw {L([a, b, a])}"]
+           f"sw {L([a, b, a])}", f"swf {L([b, a])}", f"swf {L([])}"]
     for k in [0, 1, 2, 3, NPOS]:
         ops.append(f"af {k} {b}")
         ops.append(f"rs {k} {b}")
@@ -113,6 +113,12 @@ def gen_queries(ck, caps, out, rng, light=False, p5=0.3):
                         out.append(f"replace {ck} {cap} {L(l)} {p} {k} {L(n)}")
                         if light:
                             continue
+                        if p != NPOS and k != NPOS and p <= k <= len(l):
+                            # iterator-based overloads: [p, k) is a valid range of the string
+                            out.append(f"replacei {ck} {cap} {L(l)} {p} {k} {L(n)}")
+                            out.append(f"replaceiz {ck} {cap} {L(l)} {p} {k} {L(n)}")
+                            out.append(f"replaceip {ck} {cap} {L(l)} {p} {k} {L(n + [al[0]])} {rng.randint(0, len(n) + 1)}")
+                            out.append(f"replacef {ck} {cap} {L(l)} {p} {k} {rng.choice([0, 1, 2, 5, NPOS])} {al[1]}")
                         out.append(f"replacez {ck} {cap} {L(l)} {p} {k} {L(n)}")
                         out.append(f"replacep {ck} {cap} {L(l)} {p} {k} {L(n + [al[1]])} {rng.randint(0, len(n) + 1)}")
                         for p2 in list(range(0, len(n) + 1)):
@@ -163,6 +169,7 @@ def gen_overloads(ck, caps, out, rng, frac=1.0):
                 out.append(f"cz {ck} {cap} {L(l)} {L(n)}")
                 out.append(f"cv {ck} {cap} {L(l)} {L(n)}")
                 out.append(f"rel_sz {ck} {cap} {L(l)} {L(n)}")
+                out.append(f"rel_sx {ck} {cap} {L(l)} {L(n)}")
                 out.append(f"rel_zs {ck} {cap} {L(l)} {L(n)}")
                 if len(n) <= cap:
                     out.append(f"rel_ss {ck} {cap} {L(l)} {L(n)}")
@@ -323,7 +330,7 @@ def gen_history(rng, ck, cap, extra=False):
             n = 0 if p > n else min(c, n - p)
         elif k < 0.97:
             src = rchars(rng, ck, rng.randint(0, min(cap, 6)))
-            ops.append(f"sw {L(src)}")
+            ops.append(f"{rng.choice(['sw', 'swf'])} {L(src)}")
             n = len(src)
         elif k < 0.985 or not extra:
             ops.append("clear")
